@@ -96,7 +96,11 @@ Definition documented_options (c : cli) : copts := {|
   o_ignore_setext := c_ignore_setext c;
   o_ignore_empty_links := c_ignore_empty_links c;
   o_gfm_quirks := c_gfm_quirks c || c_gfm c;
-  o_tasklist_classes := c_tasklist_classes c
+  o_tasklist_classes := c_tasklist_classes c;
+  (* the help text offers no option for these library settings: they stay at the library default *)
+  o_prefer_fenced := false;
+  o_figure_with_caption := false;
+  o_ol_width := 0%N
 |}.
 
 (* the five extensions of the --gfm bundle, by name *)
